@@ -3,7 +3,7 @@ CONSTANTS
  Copies = 1  Pad = 0  Concat = FALSE
  OutOvh = 1
  EarlyTailError = FALSE
- MaxReinit = 0 MemStop = 1000000 MaxRaise = 0
+ MaxReinit = 0 MemStop = 1000000 MaxRaise = 0 Tell = "none"
  CountCalls = TRUE
  NW = 3  HdrSz = 2  TailSz = 2  TailOk = TRUE  Chunk = 2
  Blocks <- B_sim4
@@ -12,5 +12,5 @@ CONSTANTS
  Gives = {0, 1, 3, 100}  Spaces = {0, 1, 2, 100}
  MaxCalls = 30
 CONSTRAINT CallBound
-INVARIANTS OutputIsPrefix TerminalEquivalence BufErrorOnlyWhenStarved NoUseAfterFree FailedWorkerNotReused QueueOk DocumentedCodes EndJoinsAll MemlimitEquivalence
+INVARIANTS OutputIsPrefix TerminalEquivalence BufErrorOnlyWhenStarved NoUseAfterFree FailedWorkerNotReused QueueOk DocumentedCodes EndJoinsAll MemlimitEquivalence TellOncePerStream
 CHECK_DEADLOCK FALSE
